@@ -451,3 +451,54 @@ def c08(d):
   finally:
     tf.random.uniform = real_uniform
     shims.PHASE[0] = 0
+
+
+@replayer("c09_rt")
+def c09_rt(d):
+  """Round trip natively: compare q and from_config(get_config()) (and get_quantizer(dict)) on probe tensors."""
+  import tensorflow as tf
+  from qkeras import quantizers
+  shims.install_learning_phase()
+  w = d["witness"]
+  rep = w["__replay__"]
+  cls = getattr(quantizers, rep["class"])
+  kw = {}
+  for k, v in rep["kwargs"].items():
+    if isinstance(v, str) and v not in ("auto", "auto_po2", "rnd", "floor", "v"):
+      v = float(Fraction(v))
+    kw[k] = v
+  clause = d["clause"]
+  try:
+    q = cls(**kw)
+    cfg = q.get_config()
+  except Exception as e:  # pylint: disable=broad-except
+    return {"status": "error", "detail": "construction failed natively: %s" % e}
+  try:
+    q2 = cls.from_config(dict(cfg))
+    q3 = quantizers.get_quantizer({"class_name": rep["class"], "config": dict(cfg)})
+  except Exception as e:  # pylint: disable=broad-except
+    return {"status": "confirmed", "observed": "rebuild raised %s: %s" % (type(e).__name__, e)}
+  if clause == "no_raise":
+    return {"status": "refuted", "observed": "round trip succeeded"}
+  shape = tuple(rep.get("probe_shape", [4, 6]))
+  rng = np.random.RandomState(7)
+  probes = [rng.uniform(-2, 2, size=shape).astype(np.float32), rng.uniform(-9, 9, size=shape).astype(np.float32),
+            np.linspace(-3, 3, shape[0] * shape[1]).reshape(shape).astype(np.float32)]
+  for x in probes:
+    outs = []
+    for qq in (q, q2, q3):
+      tf.random.set_seed(3)
+      np.random.seed(3)
+      try:
+        outs.append(np.array(qq(tf.constant(x))))
+      except Exception as e:  # pylint: disable=broad-except
+        outs.append("raised %s" % type(e).__name__)
+    if isinstance(outs[0], str):
+      continue
+    for name, o in (("from_config", outs[1]), ("get_quantizer", outs[2])):
+      if isinstance(o, str) or not np.array_equal(outs[0], o):
+        return {"status": "confirmed", "observed": {"route": name, "kwargs": {k: str(v) for k, v in kw.items()},
+                                                    "config": {k: str(v) for k, v in cfg.items()},
+                                                    "original": str(outs[0].reshape(-1)[:6]), "rebuilt": str(o if isinstance(o, str) else o.reshape(-1)[:6])},
+                "expected": "identical outputs"}
+  return {"status": "refuted", "observed": {"probes": len(probes)}}
